@@ -15,7 +15,7 @@
    * The server is the finite list of responses it gives, one per request, in order (so stateful servers are
      covered); a response is a page = (items, optional next href). *)
 From Coq Require Import ZArith QArith List Bool String Ascii.
-From ACN Require Import Base.Num Base.Calendar.
+From ACN Require Import Base.Num Base.Calendar Gen.ClientShape.
 Import ListNotations.
 Open Scope string_scope.
 
@@ -218,18 +218,22 @@ Record query := {
   q_timeseries : bool
 }.
 
-Definition valid_site (s : string) : bool :=
-  String.eqb s "caltech" || String.eqb s "jpl" || String.eqb s "office001".
+(* the K_* literals are regenerated from data_client.py / utils.py on every run (Gen/ClientShape.v) *)
+Definition valid_site (s : string) : bool := existsb (String.eqb s) K_valid_sites.
 
-Definition opt_arg (name : string) (v : option string) : list string :=
-  match v with Some x => [name ++ "=" ++ x] | None => [] end.
+Definition opt_arg (prefix : string) (v : option string) : list string :=
+  match v with Some x => [prefix ++ x] | None => [] end.
 
 Definition query_args (q : query) : list string :=
-  opt_arg "where" (q_cond q) ++ opt_arg "project" (q_project q) ++ opt_arg "sort" (q_sort q)
-  ++ ["max_results=" ++ (if q_timeseries q then "1" else "100")].
+  opt_arg K_arg_cond (q_cond q) ++ opt_arg K_arg_project (q_project q) ++ opt_arg K_arg_sort (q_sort q)
+  ++ [K_arg_max_results ++ (if q_timeseries q then K_limit_ts else K_limit)].
 
 Definition first_url (base : string) (q : query) : string :=
-  base ++ "sessions/" ++ q_site q ++ (if q_timeseries q then "/ts/" else "") ++ "?" ++ join "&" (query_args q).
+  base ++ K_endpoint ++ q_site q ++ (if q_timeseries q then K_ts_suffix else "") ++ K_query_mark
+  ++ join K_arg_sep (query_args q).
+
+(* the format both utils functions are expected to use; rfc1123 / parse_rfc1123 below implement it *)
+Definition rfc1123_format : string := "%a, %d %b %Y %H:%M:%S GMT".
 
 Inductive outcome := Done | Raised (e : string).
 
@@ -279,7 +283,7 @@ Definition get_sessions (tz : tzdb) (base : string) (q : query) (responses : lis
         {| t_requests := first_url base q :: t_requests tr; t_yielded := t_yielded tr;
            t_outcome := t_outcome tr |}
     end
-  else {| t_requests := []; t_yielded := []; t_outcome := Raised "ValueError" |}.
+  else {| t_requests := []; t_yielded := []; t_outcome := Raised K_site_error |}.
 
 (* ------------------------------------------------------------------ get_sessions_by_time *)
 Definition time_cond (pad : bool) (start stop : option aware) (min_energy : option string) : res string :=
